@@ -208,7 +208,28 @@ pub fn pick_args(rng: &mut Rng, af: &AAFramework<usize>, max_len: usize) -> Vec<
     let k = if max_len <= 1 { 1 } else { [1, 2, 2, 3][rng.below(4)].min(max_len) };
     let comps = components(af);
     let mut v: Vec<usize> = Vec::new();
-    match rng.below(5) {
+    match rng.below(6) {
+        5 if k >= 2 && live.len() <= 10 => {
+            // an argument that is in every preferred extension without being grounded (so: possibly outside the
+            // ideal extension), next to a grounded one, in a random order: "in all preferred extensions" is
+            // necessary, not sufficient, for the ideal / grounded semantics, and the list order must not matter.
+            // (The roles are computed with the library itself; this only selects the input.)
+            let gr: Vec<usize> = af.grounded_extension().iter().map(|a| *a.label()).collect();
+            let mut sk: Vec<usize> = Vec::new();
+            let picked = guarded(|| {
+                let mut s = PreferredSemanticsSolver::new(af);
+                live.iter().filter(|l| !gr.contains(l) && s.is_skeptically_accepted(l)).cloned().collect::<Vec<usize>>()
+            });
+            if let Ok(x) = picked { sk = x; }
+            if !sk.is_empty() && !gr.is_empty() {
+                v.push(*rng.pick(&sk));
+                v.push(*rng.pick(&gr));
+                if k >= 3 { v.push(*rng.pick(&live)); }
+                rng.shuffle(&mut v);
+            } else {
+                for _ in 0..k { v.push(*rng.pick(&live)); }
+            }
+        }
         4 if k >= 2 => {
             // an argument defeated by the grounded extension (attacked by an unattacked one) next to
             // arbitrary other ones: shortcuts that reason about "attacked by the current set" see
